@@ -1637,6 +1637,10 @@ func (g Gateway) SubscribeToEvents(in *hydrapb.SubscribeToEventsRequest, eventSe
 	// Get the server context
 	hydraInterface := g.ZeusInterface.GetHydra()
 
+	// The callback runs on the goroutine of whichever request changed the swamp, so several
+	// goroutines can reach it at once; gRPC allows only one SendMsg at a time per stream.
+	var sendMu sync.Mutex
+
 	eventCallbackFunction := func(event *swamp.Event) {
 
 		if event == nil {
@@ -1687,6 +1691,8 @@ func (g Gateway) SubscribeToEvents(in *hydrapb.SubscribeToEventsRequest, eventSe
 		}
 
 		// send the message to the client
+		sendMu.Lock()
+		defer sendMu.Unlock()
 		if sendErr := eventServer.SendMsg(&hydrapb.SubscribeToEventsResponse{
 			SwampName:       eventSwampName,
 			Treasure:        convertedTreasure,
